@@ -40,7 +40,7 @@ RULE = ('conn arm: 2-3 connections on a DB over FileStorage (simulated '
         'multi-undo against a record of the same undo transaction).  '
         'non-trivial = >= 1 resolution attempted; distinct = outcome trace')
 BUDGET = {'quick': {'runs': 10000, 'wall': 300, 'chunk': 25},
-          'thorough': {'runs': 900000, 'wall': 1800, 'chunk': 100}}
+          'thorough': {'runs': 900000, 'wall': 1200, 'chunk': 100}}
 ASSUMPTIONS = [
     'the merge function keeps the references of both sides without '
     'comparing them (PersistentReference objects refuse comparison)',
